@@ -1,7 +1,258 @@
-import Operon.Model.Telomere
+import Operon.Lemmas.C09
+/-!
+# C09 — lifecycle: legal transitions only, Hayflick bound, absorbing end states, no hang
+
+Property theorems only.  Model: `Operon/Model/Telomere.lean` (hand-written automaton tied to
+`operon_ai/state/telomere.py` by the differential correspondence of `harness/vf/props/c09.py`; lock shapes and
+thresholds regenerated from the source by `harness/vf/extract/e3_telomere.py` into `Operon/Gen/Telomere*.lean`).
+
+Statements about one call quantify over every configuration, every state (reachable or not) and every
+operation; statements about histories quantify over every list of operations — no bound on `max_operations`,
+thresholds, limits, costs, amounts or the length of the history.  `reset` starts a new epoch; "TERMINATED is
+absorbing" is judged within an epoch.  Tick costs and renewal amounts are natural numbers.
+-/
 namespace Operon.Telomere
 
-/-- placeholder while the harness is brought up -/
-theorem c09_placeholder (cfg : Cfg) : (init cfg).phase = .nascent := rfl
+/-! ## Legal transitions -/
+
+/-- Every phase change a call announces (`on_phase_change(a, b)`) is one of
+    NASCENT→ACTIVE (by `start` or an auto-starting `tick`), ACTIVE→SENESCENT (by `tick`, `record_error`,
+    `check_timeouts`), SENESCENT→ACTIVE (by `renew` only), anything-but-TERMINATED→APOPTOTIC (by
+    `trigger_apoptosis` only), anything→TERMINATED (by `terminate` only); the announced changes chain from the
+    phase before the call to the phase after it, so no phase change is silent.  The only exception is `reset`,
+    which announces nothing and starts a new NASCENT epoch. -/
+theorem c09_legal_transitions (cfg : Cfg) (s : State) (op : Op) :
+    (∀ a b, Ev.change a b ∈ (step cfg s op).evs → Legal op a b) ∧
+    (op ≠ .reset → follow s.phase (step cfg s op).evs = some (step cfg s op).st.phase) ∧
+    (op = .reset → (step cfg s op).st.phase = .nascent ∧ (step cfg s op).evs = []) := by
+  refine ⟨(legal_step cfg s op).1, (legal_step cfg s op).2, ?_⟩
+  rintro rfl
+  simp [step, reset]
+
+/-- TERMINATED is absorbing: from a terminated lifecycle no history without `reset` leads anywhere else. -/
+theorem c09_terminated_absorbing (cfg : Cfg) (s : State) (h : s.phase = .terminated) (ops : List Op)
+    (hr : ∀ op ∈ ops, op ≠ .reset) : (run cfg s ops).phase = .terminated := by
+  induction ops generalizing s with
+  | nil => exact h
+  | cons op ops ih =>
+    exact ih _ (terminated_step cfg s op h (hr op (by simp))) (fun o ho => hr o (by simp [ho]))
+
+/-- APOPTOTIC can only be left by `terminate` (and then to TERMINATED). -/
+theorem c09_apoptotic_only_terminates (cfg : Cfg) (s : State) (op : Op) (h : s.phase = .apoptotic)
+    (hr : op ≠ .reset) :
+    (step cfg s op).st.phase = .apoptotic ∨ ((step cfg s op).st.phase = .terminated ∧ op = .term) :=
+  apoptotic_step cfg s op h hr
+
+/-- APOPTOTIC and TERMINATED never tick: the call reports False, announces nothing and leaves the whole state
+    (length, counters, timestamps) untouched. -/
+theorem c09_dead_never_ticks (cfg : Cfg) (s : State) (c : Nat)
+    (h : s.phase = .apoptotic ∨ s.phase = .terminated) :
+    (step cfg s (.tick c)).st = s ∧ (step cfg s (.tick c)).ret = .bool false ∧ (step cfg s (.tick c)).evs = [] := by
+  simp [step, tick, h]
+
+/-- A tick reports True exactly when the lifecycle is ACTIVE afterwards. -/
+theorem c09_tick_true_iff_active_after (cfg : Cfg) (s : State) (c : Nat) :
+    ∃ b, (step cfg s (.tick c)).ret = .bool b ∧ (b = true ↔ (step cfg s (.tick c)).st.phase = .active) := by
+  obtain ⟨ph, len, errs, ops, ren, rsn, st0, la, now⟩ := s
+  cases ph <;> simp [step, tick, started, enterSenescence] <;> (repeat' split) <;> simp_all
+
+/-! ## Bounds -/
+
+/-- The remaining length stays within `[0, max_operations]` after every history. -/
+theorem c09_length_in_bounds (cfg : Cfg) (ops : List Op) :
+    0 ≤ (run cfg (init cfg) ops).length ∧ (run cfg (init cfg) ops).length ≤ cfg.maxOps :=
+  wf_run cfg ops _ (wf_init cfg)
+
+/-- …and every single call preserves the bound from any state that satisfies it. -/
+theorem c09_length_in_bounds_step (cfg : Cfg) (s : State) (op : Op) (h : WF cfg s) : WF cfg (step cfg s op).st :=
+  wf_step cfg s op h
+
+/-- Hayflick bound.  Take any history `pre`, then any stretch `seg` between renewals (no `reset`, every `renew`
+    in it refused).  The number of unit ticks in `seg` that report True, plus the length remaining at the end,
+    is at most the length remaining at the start of the stretch — hence at most `max_operations`. -/
+theorem c09_hayflick (cfg : Cfg) (pre seg : List Op)
+    (hseg : BetweenRenewals cfg (run cfg (init cfg) pre) seg) :
+    (trueUnitTicks cfg (run cfg (init cfg) pre) seg : Int) + (run cfg (run cfg (init cfg) pre) seg).length
+        ≤ (run cfg (init cfg) pre).length ∧
+    trueUnitTicks cfg (run cfg (init cfg) pre) seg ≤ cfg.maxOps := by
+  have hwf := wf_run cfg pre _ (wf_init cfg)
+  have h := hayflick_segment cfg seg _ hwf.1 hseg
+  refine ⟨h.1, ?_⟩
+  have := hwf.2
+  omega
+
+/-- Each True unit tick costs exactly one unit of remaining length. -/
+theorem c09_true_unit_tick_costs_one (cfg : Cfg) (s : State) (h0 : 0 ≤ s.length)
+    (ht : (step cfg s (.tick 1)).ret = .bool true) : (step cfg s (.tick 1)).st.length + 1 = s.length :=
+  tick_unit_decrements cfg s h0 ht
+
+/-! ## Renewal -/
+
+/-- Renewal is refused — reports False, changes nothing, announces nothing — when it is disallowed or the
+    lifecycle is terminated; in every other case it is granted. -/
+theorem c09_renew_refused_when_disallowed_or_terminated (cfg : Cfg) (s : State) (n : Option Nat) (r : Bool) :
+    ((cfg.allowRenew = false ∨ s.phase = .terminated) →
+      (step cfg s (.renew n r)).ret = .bool false ∧ (step cfg s (.renew n r)).st = s ∧
+      (step cfg s (.renew n r)).evs = []) ∧
+    (¬ (cfg.allowRenew = false ∨ s.phase = .terminated) → (step cfg s (.renew n r)).ret = .bool true) := by
+  simp only [step, renew]
+  (repeat' split) <;> simp_all
+
+/-! ## Limits force senescence -/
+
+/-- Error limit: an ACTIVE lifecycle whose error count reaches the threshold, or whose error rate reaches the
+    extracted ERROR_SENESCENCE_RATE, is SENESCENT after that `record_error`, which reports False and announces
+    ACTIVE→SENESCENT. -/
+theorem c09_error_limit_forces_senescence (cfg : Cfg) (s : State) (ha : s.phase = .active)
+    (hlim : cfg.errThr ≤ s.errors + 1 ∨ errorRateHit (s.errors + 1) s.ops = true) :
+    (step cfg s .err).st.phase = .senescent ∧ (step cfg s .err).ret = .bool false ∧
+    (step cfg s .err).evs = [.change .active .senescent, .senescence .errors] := by
+  obtain ⟨ph, len, errs, ops, ren, rsn, st0, la, now⟩ := s
+  simp only at ha hlim; subst ha
+  simp only [step, recordError, enterSenescence]
+  (repeat' split) <;> simp_all
+
+/-- Depletion: a tick that leaves an ACTIVE (or auto-started) lifecycle with no remaining length, or with at
+    most the extracted SENESCENCE_THRESHOLD share of it, leaves it SENESCENT and reports False. -/
+theorem c09_depletion_forces_senescence (cfg : Cfg) (s : State) (c : Nat)
+    (ha : s.phase = .active ∨ s.phase = .nascent) (hd : depleted cfg (max 0 (s.length - c)) = true) :
+    (step cfg s (.tick c)).st.phase = .senescent ∧ (step cfg s (.tick c)).ret = .bool false ∧
+    Ev.change .active .senescent ∈ (step cfg s (.tick c)).evs := by
+  obtain ⟨ph, len, errs, ops, ren, rsn, st0, la, now⟩ := s
+  simp only at ha hd
+  rcases ha with rfl | rfl <;> simp [step, tick, started, enterSenescence, hd]
+
+/-- Time limits.  After ANY history, an ACTIVE lifecycle has a start time `t0` and a last-activity time `t1`
+    (neither in the future), and `check_timeouts`
+    * makes it SENESCENT (reporting False) as soon as the lifetime limit is reached, `now - t0 ≥ max_lifetime`;
+    * makes it SENESCENT (reporting False) as soon as the idle limit is reached, `now - t1 ≥ idle_timeout`;
+    * and otherwise leaves it ACTIVE and reports True. -/
+theorem c09_time_limits_force_senescence (cfg : Cfg) (ops : List Op)
+    (ha : (run cfg (init cfg) ops).phase = .active) :
+    ∃ t0 t1, (run cfg (init cfg) ops).started = some t0 ∧ (run cfg (init cfg) ops).lastAct = some t1 ∧
+      t0 ≤ (run cfg (init cfg) ops).now ∧ t1 ≤ (run cfg (init cfg) ops).now ∧
+      let s := run cfg (init cfg) ops
+      let o := step cfg s .timeouts
+      (∀ L, cfg.life = some L → L ≠ 0 → L ≤ s.now - t0 →
+        o.st.phase = .senescent ∧ o.ret = .bool false ∧ o.evs = [.change .active .senescent, .senescence .timeout]) ∧
+      (∀ I, cfg.idle = some I → I ≠ 0 → I ≤ s.now - t1 →
+        o.st.phase = .senescent ∧ o.ret = .bool false ∧ Ev.change .active .senescent ∈ o.evs) ∧
+      (limitHit cfg.life (some t0) s.now = false → limitHit cfg.idle (some t1) s.now = false →
+        o.st.phase = .active ∧ o.ret = .bool true ∧ o.evs = []) := by
+  have ht := timed_run cfg ops _ (timed_init cfg)
+  generalize run cfg (init cfg) ops = s at ha ht
+  obtain ⟨ph, len, errs, nops, ren, rsn, st0, la, now⟩ := s
+  simp only at ha; subst ha
+  unfold Timed at ht
+  cases st0 <;> cases la <;> simp at ht
+  rename_i t0 t1
+  refine ⟨t0, t1, rfl, rfl, ht.1, ht.2, ?_, ?_, ?_⟩
+  · intro L hL hne hle
+    simp [step, checkTimeouts, limitHit, enterSenescence, hL, hne, hle]
+  · intro I hI hne hle
+    simp only [step, checkTimeouts, limitHit, enterSenescence, hI]
+    (repeat' split) <;> simp_all
+  · intro h1 h2
+    simp [step, checkTimeouts, h1, h2]
+
+/-- The thresholds used by the model were recognised in the source by extractor E5 (numeric class attributes). -/
+theorem c09_thresholds_known : Gen.TelomereConsts.known = true ∧ 0 < Gen.TelomereConsts.senescenceDen ∧
+    0 < Gen.TelomereConsts.errorRateDen := by decide
+
+/-! ## Every lifecycle call returns -/
+
+/-- Lock discipline on the shapes extracted from the CURRENT source (E3): the analysis recognised every use of
+    the lock, no method contains a `while` loop, and every public method of `Telomere`, called from outside
+    (nothing held), returns whichever of its branches, regions and self-calls are taken or skipped — it never
+    waits for the lock it holds itself and never recurses without end.
+    Proof: the decidable check that the all-branches-taken execution of each public method returns, lifted to all
+    branch choices by `execM_mono`. -/
+theorem c09_every_call_returns :
+    Gen.TelomereLocks.recognised = true ∧
+    (∀ x ∈ genTable, x.whileLoops = 0) ∧
+    ∀ m x, genTable[m]? = some x → x.pub = true → ∀ ch, ∃ ch', callPublic genTable genKind m ch = .ret ch' :=
+  ⟨by decide, by decide, fun m x hx hp => returns_of_allTake genTable genKind (by decide) m x hx hp⟩
+
+/-- The same for the automaton: every operation of the model calls a public method that exists in the extracted
+    table and returns; the lock events the model attributes to the call (its path) run to completion under the
+    extracted lock kind and are one of the complete lock traces of that method's extracted shape. -/
+theorem c09_lifecycle_calls_return (cfg : Cfg) (s : State) (op : Op) :
+    lockRun genKind 0 (step cfg s op).lock = true ∧
+    match op.method with
+    | none => (step cfg s op).lock = []
+    | some name => ∃ m x, genTable.indexOf name = some m ∧ genTable[m]? = some x ∧ x.pub = true ∧
+        (∀ ch, ∃ ch', callPublic genTable genKind m ch = .ret ch') ∧
+        (step cfg s op).lock ∈ tracesM genTable genTable.length m := by
+  have hok : pathsOk genTable genKind op.method (lockPaths op) = true := by
+    cases op <;> simp only [Op.method, lockPaths] <;> decide
+  have hmem := lock_mem_lockPaths cfg s op
+  refine ⟨pathsOk_run _ _ _ _ hok _ hmem, ?_⟩
+  cases hm : op.method with
+  | none =>
+    rw [hm] at hok
+    exact pathsOk_none _ _ _ hok _ hmem
+  | some name =>
+    rw [hm] at hok
+    obtain ⟨m, x, hi, hx, hp, hl⟩ := pathsOk_some _ _ _ _ hok _ hmem
+    exact ⟨m, x, hi, hx, hp, c09_every_call_returns.2.2 m x hx hp, hl⟩
+
+/-- A re-entrant lock never blocks its holder: for every table of shapes, every depth budget, hold count, method
+    and branch choice the execution is not `blocked`. -/
+theorem c09_rlock_never_blocks (T : Table) (fuel held m : Nat) (ch : List Bool) :
+    execM T .rlock fuel held m ch ≠ .blocked :=
+  execM_rlock_ne_blocked T fuel held m ch
+
+/-- The shape the pinned tree had — `threading.Lock()` and `tick` calling `start` inside its own region — is
+    stuck: the first tick of a never-started lifecycle waits forever for the lock it holds; the lock-event path
+    `acq acq rel rel` of that call does not run under a non-reentrant lock.  With a re-entrant lock the same
+    shape returns. -/
+theorem c09_pinned_tick_self_deadlock_witness :
+    callPublic pinnedTable .lock 1 [] = .blocked ∧
+    lockRun .lock 0 (step ⟨10, 3, true, none, none⟩ (init ⟨10, 3, true, none, none⟩) (.tick 1)).lock = false ∧
+    callPublic pinnedTable .rlock 1 [] = .ret [] := by decide
+
+/-- The current shapes would still be stuck under a non-reentrant lock (`tick` takes the lock `start` needs):
+    the repair is the lock kind, and the extracted kind is what `c09_every_call_returns` depends on. -/
+theorem c09_current_shape_needs_reentrant_lock_witness :
+    ∃ m, genTable.indexOf "tick" = some m ∧ callPublic genTable .lock m [] = .blocked := by
+  exact ⟨6, by decide, by decide⟩
+
+/-! ## Non-vacuity: concrete histories meeting the hypotheses -/
+
+private def c1 : Cfg := ⟨3, 2, true, some 900000000, some 15000000⟩
+
+/-- a terminated lifecycle exists and stays terminated under renew / start / tick -/
+example : (run c1 (init c1) [.start, .term]).phase = .terminated ∧
+    (run c1 (run c1 (init c1) [.start, .term]) [.renew none true, .start, .tick 1, .apo]).phase = .terminated := by
+  decide
+
+/-- Hayflick is tight: with max_operations = 30 exactly 26 unit ticks report True before senescence (the 27th
+    reaches the 10 % threshold), and the segment is a `BetweenRenewals` stretch -/
+example : trueUnitTicks ⟨30, 5, true, none, none⟩ (init ⟨30, 5, true, none, none⟩) (List.replicate 30 (.tick 1)) = 26 := by
+  decide
+
+example : BetweenRenewals ⟨30, 5, false, none, none⟩ (init ⟨30, 5, false, none, none⟩)
+    [.tick 1, .renew none true, .tick 1] := by
+  simp [BetweenRenewals, step, renew]
+
+/-- the first tick of a never-started lifecycle auto-starts and reports True -/
+example : (step c1 (init c1) (.tick 1)).ret = .bool true ∧ (step c1 (init c1) (.tick 1)).st.phase = .active ∧
+    (step c1 (init c1) (.tick 1)).lock = lkNested := by decide
+
+/-- hypotheses of the error-limit theorem are satisfiable: ACTIVE, one error short of the threshold -/
+example : (run c1 (init c1) [.start, .tick 0, .tick 0, .tick 0, .err]).phase = .active ∧
+    c1.errThr ≤ (run c1 (init c1) [.start, .tick 0, .tick 0, .tick 0, .err]).errors + 1 := by decide
+
+/-- hypotheses of the time-limit theorem are satisfiable: ACTIVE after renewal, lifetime reached -/
+example : (run c1 (init c1) [.start, .tick 1, .tick 1, .renew none true, .hb, .adv 900000000]).phase = .active ∧
+    (step c1 (run c1 (init c1) [.start, .tick 1, .tick 1, .renew none true, .hb, .adv 900000000]) .timeouts).st.reason
+      = some .timeout := by decide
+
+/-- record_error before start leaves the lifecycle NASCENT (the repaired behaviour), renewal of a senescent
+    lifecycle is the only way back to ACTIVE -/
+example : (run ⟨5, 1, true, none, none⟩ (init ⟨5, 1, true, none, none⟩) [.err]).phase = .nascent ∧
+    (run ⟨5, 1, true, none, none⟩ (init ⟨5, 1, true, none, none⟩) [.start, .err]).phase = .senescent ∧
+    (run ⟨5, 1, true, none, none⟩ (init ⟨5, 1, true, none, none⟩) [.start, .err, .renew (some 0) true]).phase = .active := by
+  decide
 
 end Operon.Telomere
